@@ -1,7 +1,7 @@
 """C13 flush forgets finished tasks only."""
 from asyncio_taskpool import TaskPool
 from asyncio_taskpool.exceptions import InvalidTaskID, PoolException
-from engine.prog import Interp, act, drive, parts_product, select
+from engine.prog import Interp, act, drive, parts_product, refine, select
 from engine.spec import Family
 from engine.world import Excluded, World, task_outcome
 
@@ -122,6 +122,8 @@ def families(tier):
         # no early placement in the quick tier (t >= 4: the request has settled before step 2)
         pre = base + ["x5 == %d" % NOP, "a5 == 0", "t >= 4", "x4 == 0 or x4 == 3 or x4 == 4 or x4 == %d" % NOP]
         parts = parts_product(cb=(3,), n1=(2,), x2=range(NOP), x3=range(NOP))
+        heavy = [p for p in parts if any(("x2 == %d" % a) in p for a in (0, 1, 2)) and any(("x3 == %d" % b) in p for b in (0, 1, 2))]
+        parts = [p for p in parts if p not in heavy] + [p + ["x4 == %d" % v] for p in heavy for v in (0, 3, 4, NOP)]
     else:
         pre = base + ["x5 == %d" % NOP, "a5 == 0", "t >= 0", "cb == 3"]
         parts = parts_product(n1=(2, 3), x2=range(NOP), x3=range(NOP))
